@@ -1,0 +1,70 @@
+//go:build verif
+
+package codegen
+
+// Contracts for the govc verifier (/verif). Comment-only; excluded from every
+// normal build by the tag above.
+
+//@ spec rng_lo(T) = T == "int8" ? -128 : T == "int16" ? -32768 : T == "int32" ? -2147483648
+//@     : (T == "int64" || T == "int") ? -9223372036854775808 : 0
+//@ spec rng_hi(T) = T == "int8" ? 127 : T == "int16" ? 32767 : T == "int32" ? 2147483647
+//@     : (T == "int64" || T == "int") ? 9223372036854775807
+//@     : T == "uint8" ? 255 : T == "uint16" ? 65535 : T == "uint32" ? 4294967295 : 18446744073709551615
+//@ spec int_type(T) = T == "int8" || T == "int16" || T == "int32" || T == "int64"
+//@     || T == "uint8" || T == "uint16" || T == "uint32" || T == "uint64"
+//@ spec bits(T) = (T == "int8" || T == "uint8") ? 8 : (T == "int16" || T == "uint16") ? 16
+//@     : (T == "int32" || T == "uint32") ? 32 : 64
+//@ spec in_rng(T, x) = x >= rng_lo(T) && x <= rng_hi(T)
+
+// fits: every integer in [lo, hi] (the integer hull of the bounds) is in T.
+//@ spec fits(T, lo, hi) = lo != nil && hi != nil && rng_lo(T) <= ceil(*lo) && floor(*hi) <= rng_hi(T)
+//@ spec nonempty(lo, hi) = lo == nil || hi == nil || ceil(*lo) <= floor(*hi)
+//@ spec narrowest(T, lo, hi) =
+//@     (bits(T) > 8  ==> !fits("int8", lo, hi)  && !fits("uint8", lo, hi))
+//@     && (bits(T) > 16 ==> !fits("int16", lo, hi) && !fits("uint16", lo, hi))
+//@     && (bits(T) > 32 ==> !fits("int32", lo, hi) && !fits("uint32", lo, hi))
+
+//@ func adjustForSignedBounds
+//@   props C15
+//@   shape result0 = "int8" | "int16" | "int32" | "int64"
+//@   assigns nothing
+//@   ensures [C15] rep: forall x int :: in_rng("int64", x) && (nMin != nil ==> x >= *nMin) && (nMax != nil ==> x <= *nMax) ==> in_rng(result0, x)
+//@   ensures [C15] drop-min: forall x int :: result1 && in_rng(result0, x) ==> nMin != nil && x >= *nMin
+//@   ensures [C15] drop-max: forall x int :: result2 && in_rng(result0, x) ==> nMax != nil && x <= *nMax
+//@   ensures [C15] narrow: nonempty(nMin, nMax) && (nMin == nil || *nMin < 0) ==> narrowest(result0, nMin, nMax)
+
+//@ func adjustForUnsignedBounds
+//@   props C15
+//@   shape result0 = "uint8" | "uint16" | "uint32" | "uint64"
+//@   requires nMin != nil && *nMin >= 0
+//@   assigns nothing
+//@   ensures [C15] rep: forall x int :: in_rng("int64", x) && x >= *nMin && (nMax != nil ==> x <= *nMax) ==> in_rng(result0, x)
+//@   ensures [C15] drop-min: forall x int :: result1 && in_rng(result0, x) ==> x >= *nMin
+//@   ensures [C15] drop-max: forall x int :: result2 && in_rng(result0, x) ==> nMax != nil && x <= *nMax
+//@   ensures [C15] narrow: nonempty(nMin, nMax) ==> narrowest(result0, nMin, nMax)
+
+// Integer hull of the admitted set, as pointers-or-nil are not available in the
+// spec language the hull is described by predicates over x.
+//@ func getMinIntType
+//@   props C15
+//@   shape result0 = "int8" | "int16" | "int32" | "int64" | "uint8" | "uint16" | "uint32" | "uint64"
+//@   assigns nothing
+//@   ensures [C15] rep: forall x int :: in_rng("int64", x) && lower_ok(minimum, exclusiveMinimum, x) && upper_ok(maximum, exclusiveMaximum, x) ==> in_rng(result0, x)
+//@   ensures [C15] drop-min: forall x int :: result1 && in_rng(result0, x) ==> lower_ok(minimum, exclusiveMinimum, x)
+//@   ensures [C15] drop-max: forall x int :: result2 && in_rng(result0, x) ==> upper_ok(maximum, exclusiveMaximum, x)
+
+//@ spec prim_name(t) = dyn(t) == "*codegen.PointerType" ? t.Type.Type : t.Type
+
+//@ func PrimitiveTypeFromJSONSchemaType @integer
+//@   props C15
+//@   shape jsType = "integer"
+//@   shape format = "" | "date"
+//@   requires minimum != nil && maximum != nil && exclusiveMinimum != nil && exclusiveMaximum != nil
+//@   assigns *minimum, *maximum, *exclusiveMinimum, *exclusiveMaximum
+//@   ensures [C15] ok: result1 == nil && result0 != nil
+//@   ensures [C15] off: !minIntSize ==> prim_name(result0) == "int" && unchanged(*minimum) && unchanged(*maximum) && unchanged(*exclusiveMinimum) && unchanged(*exclusiveMaximum)
+//@   ensures [C15] type: minIntSize ==> int_type(prim_name(result0))
+//@   ensures [C15] rep: forall x int :: minIntSize && in_rng("int64", x) && lower_ok(old(*minimum), old(*exclusiveMinimum), x) && upper_ok(old(*maximum), old(*exclusiveMaximum), x) ==> in_rng(prim_name(result0), x)
+//@   ensures [C15] drop-lower: forall x int :: minIntSize && in_rng(prim_name(result0), x) ==> (lower_ok(*minimum, *exclusiveMinimum, x) <==> lower_ok(old(*minimum), old(*exclusiveMinimum), x))
+//@   ensures [C15] drop-upper: forall x int :: minIntSize && in_rng(prim_name(result0), x) ==> (upper_ok(*maximum, *exclusiveMaximum, x) <==> upper_ok(old(*maximum), old(*exclusiveMaximum), x))
+//@   ensures [C15,C03] pointer: (pointer <==> dyn(result0) == "*codegen.PointerType") && (!pointer ==> dyn(result0) == "codegen.PrimitiveType")
